@@ -940,20 +940,16 @@ pub fn str_from_code(x: i32) -> SmtString {
 /// assert_eq!(str_to_int(&SmtString::from("101aaabb")), -1);
 /// ```
 pub fn str_to_int(s: &SmtString) -> i32 {
-    if s.is_empty() {
+    if s.is_empty() || !s.s.iter().all(|&d| char_is_digit(d)) {
         return -1;
     }
 
     let mut x: i32 = 0;
     for &d in &s.s {
-        if char_is_digit(d) {
-            let y = 10 * x + (d as i32 - '0' as i32);
-            if y < x {
-                panic!("Arithmetic overflow in str_to_int");
-            }
-            x = y;
-        } else {
-            return -1;
+        let digit = d as i32 - '0' as i32;
+        match x.checked_mul(10).and_then(|y| y.checked_add(digit)) {
+            Some(y) => x = y,
+            None => panic!("Arithmetic overflow in str_to_int"),
         }
     }
     x
